@@ -55,6 +55,9 @@ type c27Step struct {
 	// (or cannot decrypt) before/after the Initial; 0rtt: CoN 0-RTT-type packets after it.
 	Co  string `json:"co,omitempty"`
 	CoN int    `json:"con,omitempty"`
+	// initial: only the first Trunc bytes of the datagram arrive (a truncated packet
+	// still has a parseable long header from about 20 bytes on)
+	Trunc int `json:"trunc,omitempty"`
 }
 
 type c27Case struct {
@@ -81,6 +84,9 @@ func c27Gen(t *rapid.T) c27Case {
 			}
 			if c.Retry {
 				s.Token = rapid.SampledFrom([]string{"", "valid", "valid", "corrupt"}).Draw(t, "token")
+			}
+			if rapid.IntRange(0, 7).Draw(t, "truncate") == 0 {
+				s.Trunc = rapid.SampledFrom([]int{7, 12, 20, 24, 26, 27, 30, 40, 100, 600}).Draw(t, "trunc")
 			}
 			if rapid.IntRange(0, 2).Draw(t, "coalesce") == 0 {
 				s.Co = rapid.SampledFrom([]string{"split", "ping", "ping", "hsbefore", "hsafter", "hsafter", "0rtt"}).Draw(t, "co")
@@ -357,6 +363,10 @@ func c27Run(t *testing.T, c c27Case, r *vp.Rec) (verdict error, padSig bool) {
 					b = pad(b, st.Size)
 				}
 				lastInitial, lastIntact = b, intact
+			}
+			if st.Trunc > 0 && st.Trunc < len(b) {
+				b, intact = b[:st.Trunc], false
+				r.Class("truncated-initial-datagram")
 			}
 			// Would the endpoint create a connection for this datagram if its
 			// destination connection ID is unknown? (The harness follows one
